@@ -1,5 +1,5 @@
 use super::{ExecutionError, Felt, Host, Operation, Process};
-use crate::Word;
+use crate::{Word, ONE};
 
 // INPUT / OUTPUT OPERATIONS
 // ================================================================================================
@@ -93,6 +93,9 @@ where
         let ctx = self.system.ctx();
         let addr = Self::get_valid_address(self.stack.get(12))?;
 
+        // the second word is read from addr + 1, which must be a valid address as well
+        Self::get_valid_address(Felt::from(addr) + ONE)?;
+
         // load two words from memory
         let words = self.chiplets.read_mem_double(ctx, addr);
 
@@ -108,7 +111,7 @@ where
         }
 
         // increment the address by 2
-        self.stack.set(12, Felt::from(addr + 2));
+        self.stack.set(12, Felt::from(addr) + Felt::new(2));
 
         // copy over the rest of the stack
         self.stack.copy_state(13);
@@ -192,6 +195,9 @@ where
         let ctx = self.system.ctx();
         let addr = Self::get_valid_address(self.stack.get(12))?;
 
+        // the second word is written to addr + 1, which must be a valid address as well
+        Self::get_valid_address(Felt::from(addr) + ONE)?;
+
         // pop two words from the advice stack
         let words = self.host.borrow_mut().pop_adv_stack_dword(self)?;
 
@@ -210,7 +216,7 @@ where
         }
 
         // increment the address by 2
-        self.stack.set(12, Felt::from(addr + 2));
+        self.stack.set(12, Felt::from(addr) + Felt::new(2));
 
         // copy over the rest of the stack
         self.stack.copy_state(13);
